@@ -10,7 +10,11 @@ THEOREMS = ["C01.inserted_name_fresh", "C01.opcode_index_ok", "C01.step_insertQu
             "C01.kernel_signatures_ok", "C01.kernel_signature_of_op", "C01.unsupported_ops_keep_signature", "C01.inserted_ops_widths",
             "C01.nonfloat_operand_untouched", "C01.E2E.mixed_modes_table", "C01.E2E.mixed_ops_table", "C01.E2E.instance_ok",
             "C01.E2E.instance_cast_ok", "C01.E2E.const_data_drq_violates", "C01.E2E.const_data_srq16_violates",
-            "C01.E2E.bmm_const_lhs_drq_violates", "C01.E2E.runtime_weight_srq16_violates"]
+            "C01.E2E.bmm_const_lhs_drq_violates", "C01.E2E.runtime_weight_srq16_violates",
+            # C01c: the operator-replacing transformation for BLOCKWISE weights, modelled on its own (QModel/Emulated.lean)
+            "C01.emulated_wf", "C01.emulated_frame", "C01.emulated_bookkeeping", "C01.emulated_result_tensor", "C01.emulated_tensors",
+            "C01.EmuExample.run", "C01.EmuExample.hok", "C01.EmuExample.weight_as_bias_wf", "C01.EmuExample.computed_bias_wf",
+            "C01.EmuExample.second_result_not_wf", "C01.EmuExample.runtime_weight_not_wf", "C01.EmuExample.negative_id_not_wf"]
 
 
 def run(ctx):
@@ -20,7 +24,7 @@ def run(ctx):
                 "regexes built from the model's tensor names) x random calibration data; every case goes through the real pipeline, the "
                 "graph stage is compared with the Lean model, the returned bytes are checked by an independent well-formedness checker and "
                 "run in a sandboxed interpreter; distinct = distinct (model, recipe) pairs")
-    common.proof_side(ctx, THEOREMS, modules=["QProps.C01", "QProps.C01b", "QProps.C01bOps", "QProofs.NFCheckProofs"])
+    common.proof_side(ctx, THEOREMS, modules=["QProps.C01", "QProps.C01b", "QProps.C01bOps", "QProps.C01c", "QProofs.NFCheckProofs"])
     drv = common.Driver()
     interp = pl.Interp()
     def per_case(case, res):
@@ -75,6 +79,14 @@ def run(ctx):
     # convolutions; a constant DATA operand, the other excluded shape, is folded away by converters and is not generated)
     fp.explore(ctx, drv, 30 if ctx.tier == "quick" else 250, lambda case, res: res["status"] == "ok" and fp.oracle_c01(ctx, interp, case, res),
                gen=lambda rng_, i: fp.gen_runtime_weight(rng_), graph_corr=True, pipe_corr=True)
+    # the operator-REPLACING transformation (BLOCKWISE weights): QModel/Emulated.lean vs the real emulated_subchannel() on its own
+    # TransformationInput, field by field (C01c: emulated_wf, _frame, _bookkeeping, _result_tensor, _tensors)
+    if ctx.left() > 40:
+        from .. import fam_emulated as fe
+        try:
+            fe.cmp_emulated(ctx, 120 if ctx.tier == "quick" else 1500)
+        except Exception as e:  # noqa: BLE001
+            ctx.disagree("emulated", {}, f"the family could not run ({type(e).__name__}: {str(e)[:160]})", "runs")
     # the operand-type signatures [builtin code, operand types, result types] (255 = absent operand) that occurred in outputs which the
     # ASSUMED kernel table accepts and the interpreter allocated and invoked: this run's validation of the table by execution
     sigs = sorted(getattr(ctx, "ksig_seen", set()))
